@@ -11,7 +11,7 @@ type BlockOp struct {
 	Kind   string // "send", "recv", "select", "wait", "range"
 	In     ssa.Instruction
 	Fn     *ssa.Function
-	Chan   *X   // for send/recv/range
+	Chan   *X // for send/recv/range
 	States []SelState
 	Pos    token.Pos
 }
